@@ -202,3 +202,43 @@ Section FortranFrameWrapper.
     cbn [fst setvals vals_of log]. split; [exact Hr|]. split; [apply setvals_sf|reflexivity].
   Qed.
 End FortranFrameWrapper.
+
+(* ---- every generated {equations} block meets the frame premise: the compiled statements of FSem.f_pass write only
+   solved_values(number of the left-hand variable, index) — for every program whose left-hand rows exist ---- *)
+Section FortranParsedFrame.
+  Variable num : Type.
+  Variables (add sub mul div : num -> num -> num) (neg absf : num -> num) (ltb : num -> num -> bool).
+  Variable of_int : Z -> num.
+  Variables (fexp flog : num -> num) (fpow : num -> num -> num).
+  Variable round4 : num -> num.
+  Variables (exp4 log4 : num -> num) (pow4 : num -> num -> num).
+  Variables (zero one : num).
+  Notation f_pass := (f_pass num add sub mul div neg absf ltb of_int fexp flog fpow round4 exp4 log4 pow4 zero one).
+
+  (* cells the block may write for the one-based column idx *)
+  Definition f_written (prog : list (eqn num)) (idx : Z) (i j : nat) : Prop :=
+    (exists e, In (i, e) prog) /\ j = Z.to_nat (idx - 1).
+
+  Theorem f_pass_frame (sh : list nat) (idx : Z) : forall (prog : list (eqn num)) (v : vals num),
+    1 <= idx <= Z.of_nat (hd 0%nat sh) ->
+    (forall i e, In (i, e) prog -> (i < length sh)%nat) ->
+    shape v = sh -> agree_outside (f_written prog idx) v (f_pass prog idx v).
+  Proof.
+    induction prog as [|[i e] r IH]; intros v Hcol Hrows Hs; cbn [FSem.f_pass]; [apply agree_refl|].
+    assert (Hr' : forall i' e', In (i', e') r -> (i' < length sh)%nat) by (intros i' e' H; apply (Hrows i' e'); right; exact H).
+    assert (Mono : forall v1 v2 : vals num, agree_outside (f_written r idx) v1 v2 -> agree_outside (f_written ((i, e) :: r) idx) v1 v2).
+    { intros v1 v2. apply agree_mono. intros i' j' [(e' & He') Hj]. split; [exists e'; right; exact He'|exact Hj]. }
+    destruct (f_eval num add sub mul div neg absf ltb of_int fexp flog fpow round4 exp4 log4 pow4 one
+                (rd_f num zero v idx) (f_regroup num e)) as [x|].
+    - assert (A : agree_outside (f_written ((i, e) :: r) idx) v (fwrite num v (Z.of_nat i + 1) idx (to8 num of_int x))).
+      { unfold FSem.fwrite.
+        assert (R : in_range num v (Z.of_nat i + 1) idx = true).
+        { unfold in_range, nrows_of, ncols_of. pose proof (Hrows i e (or_introl eq_refl)) as Hi.
+          replace (length v) with (length sh) by (rewrite <- Hs; apply shape_length).
+          replace (length (hd [] v)) with (hd 0%nat sh) by (rewrite <- Hs; destruct v; reflexivity). lia. }
+        rewrite R. apply set_cell_agree. split; [exists e; left; f_equal; lia|reflexivity]. }
+      eapply agree_trans; [exact A|]. apply Mono. apply IH; [exact Hcol|exact Hr'|].
+      destruct A as [S _]. congruence.
+    - apply Mono. apply IH; assumption.
+  Qed.
+End FortranParsedFrame.
